@@ -85,7 +85,8 @@ def cases(run: lib.Run, scale: int = 1):
                     t = tables[(i + j + qi) % len(tables)]
                     cfg = {"strict": False}
                     if t is not None:
-                        cfg["rel"] = t
+                        # what a failing backend raises (a timeout of its own included) makes no difference: false, and looked up once
+                        cfg["rel"] = {**t, "raise_with": ["RuntimeError", "TimeoutError", "asyncio.TimeoutError", "OSError"][(i + j + qi + ai) % 4]}
                     yield pol, req, cfg
     for pol, req, cfg in gc.random_cases(run.seed * 617 + 13, (1500 if quick else 15000) * scale, rel=1.0, nested=0.4, hostile=0.05):
         if r.random() < 0.15:
